@@ -26,7 +26,7 @@ PROPERTY = "C15"
 LEVEL = "exploration"
 RULE = (
     "Hypothesis operation lists interpreted as a history of the policy's environment: submit k requests of model m with deadline d, "
-    "advance time (running batches finish and free their worker), load / evict a model on a worker, invoke schedule() and apply its "
+    "advance time (running batches finish and free their worker, loading models become available), load (taking 0-9 us) / evict a model on a worker, invoke schedule() and apply its "
     "answer exactly as the simulator does (cancel, schedule + place + start, deferral when the worker refuses); 1-3 models with 2-4 "
     "batch-size strategies, 1-3 workers, both goals. Every returned batch is judged against a shadow ledger and the request history. "
     "Non-trivial = a history with >= 2 invocations and >= 1 batch of size >= 2 or >= 1 expired request; distinct by case hash."
